@@ -198,3 +198,20 @@ Proof.
   eexists. eexists. split; [vm_compute; reflexivity|]. split; [vm_compute; reflexivity|].
   split; [vm_compute; reflexivity|]. vm_compute. reflexivity.
 Qed.
+
+(** Non-vacuity of the main theorem: a federation with a union of keyed objects, a finite table of resolver
+    results with nulls, a query with repeated and directive-carrying fragments satisfies all premises; both
+    sides answer (the same map), and the plan hops to a second service below each union member. *)
+Example federation_transparent_nonvacuous :
+  premises wg2 calls2 pick1 q2 = true /\
+  option_map norm (fed_exec (world_of calls2 []) wg2 pick1 false true q2) = Some ans2 /\
+  option_map norm (eval_ref (world_of calls2 []) wg2 true (2 * depth_list q2 + 4) "Query" 0%Z q2) = Some ans2 /\
+  match flatten (2 * depth_list q2 + 4) false wg2 (RObj "Query") (Some q2) with
+  | Some (Some flat) =>
+      match plan_root wg2 pick1 (2 * depth_list q2 + 4) flat with
+      | Some (Plan _ _ _ _ [Plan _ "s1" _ _ subs]) => List.length subs = 2
+      | _ => False
+      end
+  | _ => False
+  end.
+Proof. exact witness2. Qed.
